@@ -735,3 +735,44 @@ _run_c02_17 = run
 def run(res, facts, tier):
     _run_c02_17(res, facts, tier)
     r6_ieee(res, facts)
+
+
+# ----------------------------------------------------------------------------------------------- R8: the XPath parent of a node
+RAW_PARENT_REVIEWED = {
+    'XPath::findNamespace': 'walks from an element through its ancestors looking for namespace declarations: the receiver is an element or a document, never an attribute',
+    'XPath::findPreceedingSiblings': 'experimental branch: an attribute has no siblings, "no parent" is the intended answer there',
+}
+
+
+def r8_parent(res, facts):
+    r = res.rule('C02-R8', 'the XPath data model\'s parent (the owner element for an attribute or namespace node) is obtained through DOMServices::getParentOfNode in the '
+                 'evaluator; XalanNode::getParentNode — null for attributes — is used on a generic node only at reviewed sites', floor=15)
+    n_ok = 0
+    for k in facts.astidx:
+        a = facts.ast(k)
+        if a is None or not a['file'].endswith('/XPath/XPath.cpp'):
+            continue
+        fn = short(facts.name[k])
+        for c in calls(a['body']):
+            n = c.get('n') or callee(c).split('::')[-1]
+            if n == 'getParentOfNode':
+                r.ok('%s: getParentOfNode' % fn)
+            elif n == 'getParentNode' and c.get('k') == 'MCall':
+                cls = short(c.get('cls') or '')
+                site = '%s: %s.getParentNode()' % (fn, pp(strip_casts(c.get('obj')))[:30])
+                if cls not in ('XalanNode', ''):
+                    r.ok(site, 'receiver is a %s' % cls)
+                elif fn in RAW_PARENT_REVIEWED:
+                    r.ok(site, RAW_PARENT_REVIEWED[fn])
+                else:
+                    r.violation(site, 'XalanNode::getParentNode() on a generic node in the XPath evaluator: for an attribute or namespace node it returns null, while the XPath parent '
+                                'is the owner element (DOMServices::getParentOfNode); axes computed from an attribute context lose or gain nodes', common.file_line(a, c))
+    return r
+
+
+_run_c02_18 = run
+
+
+def run(res, facts, tier):
+    _run_c02_18(res, facts, tier)
+    r8_parent(res, facts)
